@@ -12,7 +12,8 @@ from props import consumer_lib as L
 MODEL = "consumer"
 MODULE = "Model.Consumer"
 THEOREMS = ["C13_quiescent_after_stop", "C13_stopping_inert", "C13_quiescent_closed", "C13_start_once",
-            "C13_start_once_nested", "C13_restartable", "C13_stop_not_running"]
+            "C13_start_once_nested", "C13_restartable", "C13_stop_not_running", "C13_reachable_invariant",
+            "C13_every_stop_quiescent"]
 
 
 def idle(ob):
@@ -327,9 +328,9 @@ def run(ck):
         "cancelled, processor Deferreds not fired; the client is a scripted stand-in",
         "Twisted Deferred cancellation / callback-chain re-entrancy, DelayedCall and LoopingCall semantics as summarised at the top of "
         "Model/Consumer.v (exercised by the correspondence, not verified)",
-        "C13_quiescent_after_stop is proved for every state with _stopping clear and no auto-commit tick in progress; that every reachable "
-        "state between two events is such a state (stop() never raises half-way) is checked on every generated case (model-side invs) "
-        "and by the monitor C13_stop_returns, not yet Qed",
+        "C13_quiescent_after_stop is proved for every state with _stopping clear and no auto-commit tick in progress; "
+        "C13_reachable_invariant / C13_every_stop_quiescent extend it to every stop() of every run under the hypothesis that the "
+        "interpreter fuel is not exhausted (no OFuel output: confirmed for every generated case by trace equality)",
         "C13_shutdown_commits (last_committed == last_processed on a successful shutdown with a group) is a monitor + model-side check, not yet Qed",
     ]
     ck.cov["trusted_base"] += ["correspondence harness harness/props/C13.py + consumer_lib.py + vlib.py",
